@@ -181,6 +181,13 @@ def _variants():
         V("occ-in-mesh-no-filter", replace_expr(MP, "MeshPatt._occurrences_in_mesh", "(occurrence for occurrence in self.occurrences_in(patt.pattern) if self.shading <= patt.sub_mesh_pattern(occurrence).shading)", "(occurrence for occurrence in self.occurrences_in(patt.pattern))"), "fire", "C06-K2"),
         V("occ-in-mesh-raw-shading", replace_expr(MP, "MeshPatt._occurrences_in_mesh", "patt.sub_mesh_pattern(occurrence).shading", "patt.shading"), "fire", "C06-K2"),
         V("mesh-avoids-any", replace_expr(MP, "MeshPatt.avoids", "all((not self._contains(patt) for patt in patts))", "any((not self._contains(patt) for patt in patts))"), "fire", "C06-K3"),
+        V("submesh-boundary-no-plus-one", replace_expr(MP, "MeshPatt.sub_mesh_pattern", "(index + 1 for index in indices)", "(index for index in indices)"), "fire", "C06-K4"),
+        V("submesh-values-unsorted", replace_expr(MP, "MeshPatt.sub_mesh_pattern", "sorted((self.pattern[index] + 1 for index in indices))", "(self.pattern[index] + 1 for index in indices)"), "fire", "C06-K4"),
+        V("submesh-border-n", replace_expr(MP, "MeshPatt.sub_mesh_pattern", "vertical.append(n + 1)", "vertical.append(n)"), "fire", "C06-K4"),
+        V("submesh-region-upper-inclusive", replace_expr(MP, "MeshPatt.sub_mesh_pattern", "(vertical[x + 1] - 1, horizontal[y + 1] - 1)", "(vertical[x + 1], horizontal[y + 1] - 1)", which=1), "fire", "C06-K"),
+        V("submesh-rows-cols-swapped", [replace_expr(MP, "MeshPatt.sub_mesh_pattern", "(vertical[x], horizontal[y])", "(horizontal[x], vertical[y])", which=None),
+                                        replace_expr(MP, "MeshPatt.sub_mesh_pattern", "(vertical[x + 1] - 1, horizontal[y + 1] - 1)", "(horizontal[x + 1] - 1, vertical[y + 1] - 1)", which=None)], "fire", "C06-K4"),
+        V("pointfree-inclusive", replace_expr(MP, "MeshPatt.is_pointfree", "lower <= self.pattern[idx] < upper", "lower <= self.pattern[idx] <= upper"), "fire", "C06-K4"),
         # silent
         V("reformat", reformat_only(MP), "silent"),
         V("occ-in-mesh-issubset", replace_expr(MP, "MeshPatt._occurrences_in_mesh", "self.shading <= patt.sub_mesh_pattern(occurrence).shading", "self.shading.issubset(patt.sub_mesh_pattern(occurrence).shading)"), "silent"),
@@ -188,3 +195,96 @@ def _variants():
         V("submesh-conjuncts-swapped", replace_expr(MP, "MeshPatt.sub_mesh_pattern", f"self.is_shaded({R}) and self.is_pointfree({R})", f"self.is_pointfree({R}) and self.is_shaded({R})"), "silent"),
         V("rename-xy", [rename_local(MP, "MeshPatt.sub_mesh_pattern", "x", "col"), rename_local(MP, "MeshPatt.sub_mesh_pattern", "y", "row")], "silent"),
     ]
+
+
+# ------------------------------------------------------------------ K4: region bookkeeping of the induced sub-pattern
+
+
+def rule_k4(ctx: Ctx) -> None:
+    """Induced cell (x, y) lies between the selected points x-1 and x (in position) and between the selected values
+    y-1 and y: original columns idx[x-1]+1 .. idx[x] and rows val[y-1]+1 .. val[y] (with 0 and n as outer borders).
+    With boundaries B = [0] + [b + 1 for the selected lines] + [n + 1] the block of cell (x, y) is
+    [V[x] .. V[x+1]-1] x [H[y] .. H[y+1]-1]."""
+    f = ctx.repo.need_method("MeshPatt", "sub_mesh_pattern")
+    idx = f.params[1]
+    body = f.body
+    from ..core import flow_env
+
+    env0 = flow_env(f)
+    n = next((k for k, v in env0.items() if unparse(v) == "len(self)"), None)
+    if n is None:
+        raise AnalysisError(f"{f.where}: n = len(self) not found")
+    lists = {}
+    for st in body:
+        if isinstance(st, ast.Assign) and isinstance(st.targets[0], ast.Name) and unparse(st.value) == "[0]":
+            lists[st.targets[0].id] = {"init": st, "extend": None, "append": None}
+    for st in body:
+        if isinstance(st, ast.Expr) and isinstance(st.value, ast.Call) and isinstance(st.value.func, ast.Attribute) and isinstance(st.value.func.value, ast.Name) and st.value.func.value.id in lists:
+            lists[st.value.func.value.id][st.value.func.attr] = st.value
+    if len(lists) != 2:
+        raise AnalysisError(f"{f.where}: the two boundary lists were not found")
+    roles = {}
+    for name, parts in lists.items():
+        ext, app = parts.get("extend"), parts.get("append")
+        if ext is None or app is None or len(ext.args) != 1:
+            raise AnalysisError(f"{f.where}: boundary list {name} is not [0] + selected + [n + 1]")
+        if unparse(app.args[0]) != f"{n} + 1":
+            ctx.violation("C06-K4", f, app, f"outer border of `{name}` is {unparse(app.args[0])}; the last block must end at cell {n} (border {n} + 1)")
+            return
+        a = ext.args[0]
+        inner = a.args[0] if isinstance(a, ast.Call) and call_name(a) == ("sorted",) and len(a.args) == 1 else a
+        if not (isinstance(inner, ast.GeneratorExp) and len(inner.generators) == 1 and not inner.generators[0].ifs and unparse(inner.generators[0].iter) == idx):
+            raise AnalysisError(f"{f.where}: boundaries of `{name}` are not generated from the selected indices")
+        v = unparse(inner.generators[0].target)
+        elt = unparse(inner.elt)
+        if elt == f"{v} + 1" and inner is a:
+            roles[name] = "position"
+        elif elt == f"self.pattern[{v}] + 1" and inner is not a:
+            roles[name] = "value"
+        elif elt == f"self.pattern[{v}] + 1":
+            ctx.violation("C06-K4", f, ext, f"value boundaries `{name}` are not sorted: cell rows would be taken in position order of the points")
+            return
+        else:
+            ctx.violation("C06-K4", f, ext, f"boundaries `{name}` are `{elt}`; a selected line b opens the next block at b + 1 (positions: index + 1, values: self.pattern[index] + 1, sorted)")
+            return
+    if sorted(roles.values()) != ["position", "value"]:
+        ctx.violation("C06-K4", f, f.node, f"boundary lists have roles {roles}; one must hold the positions, the other the (sorted) values")
+        return
+    V = next(k for k, r in roles.items() if r == "position")
+    H = next(k for k, r in roles.items() if r == "value")
+    calls = [c for c in ast.walk(f.node) if isinstance(c, ast.Call) and call_name(c) and call_name(c)[-1] in ("is_shaded", "is_pointfree") and len(c.args) == 2]
+    gens = [g for g in ast.walk(f.node) if isinstance(g, (ast.GeneratorExp, ast.SetComp)) and len(g.generators) == 2]
+    if not calls or not gens:
+        raise AnalysisError(f"{f.where}: region calls not found")
+    x, y = unparse(gens[0].generators[0].target), unparse(gens[0].generators[1].target)
+    want = [f"({V}[{x}], {H}[{y}])", f"({V}[{x} + 1] - 1, {H}[{y} + 1] - 1)"]
+    for c in calls:
+        got = [unparse(a) for a in c.args]
+        if got != want:
+            ctx.violation("C06-K4", f, c, f"{call_name(c)[-1]} is asked about the block {got}; the block of induced cell ({x}, {y}) is {want} (columns from the position boundaries, rows from the value boundaries)")
+            return
+    ctx.ok("C06-K4", f.where, f"block of induced cell ({x}, {y}) = [{V}[{x}] .. {V}[{x}+1]-1] x [{H}[{y}] .. {H}[{y}+1]-1] with {V} = [0]+[i+1]+[n+1], {H} = [0]+sorted[v+1]+[n+1]", calls[0], f)
+
+
+_OLD_RUN = run
+
+
+def run(ctx: Ctx) -> None:  # noqa: F811
+    _OLD_RUN(ctx)
+    ctx.run(rule_k4, ctx)
+    # the two region tests themselves (geometry of cells and lines) are decided under C18-G1 and re-used here
+    from . import c18
+
+    sub = Ctx("C18", ctx.repo)
+    c18.rule_g1(sub)
+    for o in sub.obligations:
+        ctx.ok("C06-K4", o["where"], o["what"][:200])
+    for fd in sub.findings:
+        fi = ctx.repo.funcs[fd.where]
+        ctx.violation("C06-K4", fi, fi.node, fd.message)
+    ctx.undecided.extend(sub.undecided)
+
+
+FLOORS["C06-K4"] = 3
+EXPLANATION = EXPLANATION.replace("NOT decided: the region bookkeeping (which original columns/rows merge into one cell, inclusive/exclusive ends in is_shaded / is_pointfree) and the semantic implication",
+                                  "(d) the region bookkeeping: which original columns/rows merge into one induced cell, and the inclusive/exclusive ends of is_shaded / is_pointfree, follow the geometry of cells and lines (K4). NOT decided: the semantic implication")
